@@ -117,7 +117,7 @@ let reset_state () =
   Hashtbl.reset raws; graw := default_g
 
 (* ---- printing ---- *)
-let pr_led () = pf " live=%d bytes=%s" (int_of_nat !world.w_live) (string_of_n !world.w_bytes)
+let pr_led () = pf " live=%d bytes=%s allocs=%s sends=%s" (int_of_nat !world.w_live) (string_of_n !world.w_bytes) (string_of_n !world.w_allocs) (string_of_n !world.w_sends)
 let pr_autom ctx =
   let a = aset_of !sys (n_of_int ctx) in
   pf " map=%d@%s ctc=%d chg=%s inact=%s" (int_of_n a.a_map.a_cur) (string_of_n a.a_map.a_last)
@@ -215,6 +215,11 @@ let run_line line =
        List.iter (fun (cx, fr) -> if cx = from then ignore (exec (OFrame (dst, fill 2, fr)))) relayed;
        last_sends := [];
        pf "="; pr_led (); pf "\n"
+     | "linux" ->
+       let li = { li_mac = mac_of_hex (arg 0); li_mtu = n_of_string (arg 1); li_iftype = n_of_string (arg 2); li_speed = n_of_string (arg 3);
+                  li_medium = n_of_string (arg 4); li_flags = n_of_string (arg 5) } in
+       let ((((m, mtu), ift), spd), fl) = linux_getters li in
+       pf "= mac=%s mtu=%s iftype=%s speed=%s flags=%s rc=0000 wifi=0\n" (hex_of_mac m) (string_of_n mtu) (string_of_n ift) (string_of_n spd) (string_of_n fl)
      | "cfg" -> do_cfg args; pf "= ok\n"
      | "junk" -> junk := n_of_int (int_of_string ("0x" ^ arg 0)); pf "= ok\n"
      | "adv" -> ignore (exec (OAdv (n_of_string (arg 0)))); pf "= now=%s\n" (string_of_n !world.w_now)
